@@ -129,14 +129,14 @@ struct alignas(8) Payload { uint8_t b[24]; };
 static constexpr int PSIZE = sizeof(Payload), PALIGN = alignof(Payload);
 #endif
 
-// payload tags: 0 = no payload, 1 = value A, 2 = value B, 3 = all-zero (default constructed), 0xEE = none of these (corrupt)
+// payload tags: 0 = no payload, 1 = value A, 2 = value B, 3 = all-zero (default constructed), 4 = all-ones, 0xEE = none of these (corrupt)
 inline uint8_t ptag_byte(uint8_t tag, int i) { return static_cast<uint8_t>((tag == 1 ? 0xA5 : 0x3C) ^ static_cast<uint8_t>(i * 29 + 7)); }
 #if VX_PAYLOAD
-inline Payload mk_payload(uint8_t tag) { Payload p; for (int i = 0; i < PSIZE; ++i) p.b[i] = ptag_byte(tag, i); return p; }
+inline Payload mk_payload(uint8_t tag) { Payload p; for (int i = 0; i < PSIZE; ++i) p.b[i] = tag == 3 ? 0x00 : tag == 4 ? 0xFF : ptag_byte(tag, i); return p; }   // tags 3, 4: the edge values all-zero / all-ones
 inline uint8_t rd_payload(const uint8_t* b) {
-	bool a = true, bb = true, z = true;
-	for (int i = 0; i < PSIZE; ++i) { a &= b[i] == ptag_byte(1, i); bb &= b[i] == ptag_byte(2, i); z &= b[i] == 0; }
-	return a ? 1 : bb ? 2 : z ? 3 : 0xEE;
+	bool a = true, bb = true, z = true, f = true;
+	for (int i = 0; i < PSIZE; ++i) { a &= b[i] == ptag_byte(1, i); bb &= b[i] == ptag_byte(2, i); z &= b[i] == 0; f &= b[i] == 0xFF; }
+	return a ? 1 : bb ? 2 : z ? 3 : f ? 4 : 0xEE;
 }
 #endif
 
